@@ -539,9 +539,11 @@ func (c *CharSet) addSpace(ecma, re2, negate bool) {
 	}
 }
 
-func (c *CharSet) addWord(ecma, negate bool) {
+func (c *CharSet) addWord(ecma, negate, ignoreCase bool) {
 	if ecma {
-		if negate {
+		if negate && ignoreCase {
+			c.addNegativeRanges(asciiCaseClosed(ECMAWordClass().ranges))
+		} else if negate {
 			c.addRanges(NotECMAWordClass().ranges)
 		} else {
 			c.addRanges(ECMAWordClass().ranges)
@@ -761,7 +763,20 @@ func (c *CharSet) addRange(chMin, chMax rune) {
 	c.canonicalize()
 }
 
-func (c *CharSet) addNamedASCII(name string, negate bool) bool {
+// asciiCaseClosed returns the ASCII ranges rs closed under case equivalence: every letter with
+// its other case, plus the two runes outside ASCII whose case orbit reaches ASCII (U+017F with
+// s and S, U+212A with k and K). A negated ASCII class that is matched case-insensitively must
+// be the complement of this closure: the members are folded first and the class is negated
+// afterwards, as for [^...]. Folding the complement instead pulls letters back in ((?i)\W would
+// match k and s through those two runes, (?i)[[:^alpha:]] every letter).
+func asciiCaseClosed(rs []SingleRange) []SingleRange {
+	closed := CharSet{building: true}
+	closed.ranges = append(closed.ranges, rs...)
+	closed.addCaseEquivalences()
+	return closed.ranges
+}
+
+func (c *CharSet) addNamedASCII(name string, negate, ignoreCase bool) bool {
 	var rs []SingleRange
 
 	switch name {
@@ -790,7 +805,7 @@ func (c *CharSet) addNamedASCII(name string, negate bool) bool {
 	case "upper":
 		rs = []SingleRange{{'A', 'Z'}}
 	case "word":
-		c.addWord(true, negate)
+		c.addWord(true, negate, ignoreCase)
 	case "xdigit":
 		rs = []SingleRange{{'0', '9'}, {'A', 'F'}, {'a', 'f'}}
 	default:
@@ -798,7 +813,9 @@ func (c *CharSet) addNamedASCII(name string, negate bool) bool {
 	}
 
 	if len(rs) > 0 {
-		if negate {
+		if negate && ignoreCase {
+			c.addNegativeRanges(asciiCaseClosed(rs))
+		} else if negate {
 			c.addNegativeRanges(rs)
 		} else {
 			c.addRanges(rs)
